@@ -806,8 +806,8 @@ def gen_family(rng, nodes=None, force=None, types=TYPES, max_pools=4, eligible=N
             did = rng.choice(delegs)
             via = rng.choice(['ctor', 'ctor', 'setters', 'autocreate'])
             passed = list(fr)
-            if via == 'ctor' and rng.random() < 0.4:
-                passed.insert(rng.randrange(len(passed) + 1), on)     # the constructor strips the defining node
+            if rng.random() < 0.4:
+                passed.insert(rng.randrange(len(passed) + 1), on)     # the defining node is implied, naming it changes nothing
             if via == 'ctor' and rng.random() < 0.2:
                 passed.append(passed[0])                              # duplicates in the list
             cand = {'type': t, 'pool': pid, 'deleg': did, 'on': on, 'for': passed, 'kw': gen_kw(rng, t), 'via': via}
@@ -852,18 +852,27 @@ def build_pools(tname, pools):
         elif p['via'] == 'setters':
             po = D.Pool(atype=T(tname), pool_id=p['pool'])
             po.set_delegation_id(delegation_id=p['deleg'])
-            po.set_defined_on(p['on'])
-            po.set_defined_for([x for x in p['for'] if x != p['on']])
+            # the reference-node set is given as generated (it may name the defining node, as the constructor allows),
+            # before or after the defining node is known
+            if len(p['for']) % 2:
+                po.set_defined_on(p['on'])
+                po.set_defined_for(list(p['for']))
+            else:
+                po.set_defined_for(list(p['for']))
+                po.set_defined_on(p['on'])
             po.set_pool_details(det)
             ps.add_pool(pool=po)
         else:
             po = ps.get_pool_by_id(pool_id=p['pool'])
             po.set_pool_details(det)
-            po.set_defined_on(p['on'])
-            fr = [x for x in p['for'] if x != p['on']]
+            fr = list(p['for'])
+            if len(fr) % 2:
+                po.set_defined_on(p['on'])
             po.add_defined_for(fr[0])
             if len(fr) > 1:
                 po.add_defined_for(fr[1:])
+            if not len(fr) % 2:
+                po.set_defined_on(p['on'])
             po.set_delegation_id(delegation_id=p['deleg'])
     return ps
 
@@ -892,7 +901,7 @@ def obs_pools(ps):
     for pid, p in ps.pool_by_id.items():
         cls, det = obs_details(p.get_pool_details())
         out[pid] = {'type': p.get_pool_type().name, 'on': p.get_defined_on(),
-                    'for': sorted(p.get_defined_for(), key=repr), 'deleg': p.get_delegation_id(),
+                    'for': sorted(set(p.get_defined_for()) - {p.get_defined_on()}, key=repr), 'deleg': p.get_delegation_id(),
                     'details_class': cls, 'details': det, 'pool_id_getter': p.get_pool_id()}
     return out
 
@@ -1099,6 +1108,26 @@ def case_family(ctx, spec, only_type=None):
         if d:
             _v(ctx, f'C12/pools-source-mutated-{d[0]}', 'generating node delegations leaves the pools unchanged',
                           dict(w, clause=d[0], pool=d[1]))
+        # --- a second definition of a reconstructed pool (other node, other delegation id) is refused and changes nothing
+        if mine:
+            ctx.count('clause:redefinition-refused-leaves-pools')
+            victim = mine[order_rng.randrange(len(mine))]
+            intruder = build_delegations(t, [['intruder-' + str(victim['deleg']), 'PoolDefinition', victim['pool'], victim['kw']]])
+            wr = dict(w, pool=victim['pool'], offered_under='intruder-' + str(victim['deleg']), order=order)
+            try:
+                fresh.incorporate_delegation(node_id='some-other-node', deleg=intruder)
+            except Exception as e:
+                if not is_lib_exc(e):
+                    _v(ctx, f'C12/pools-redefinition-raised:{type(e).__name__}', 'a second definition of a pool is refused '
+                                  f'with the library\'s own exception, not {type(e).__name__}: {e}', wr)
+            else:
+                _v(ctx, 'C12/pools-redefinition-accepted', 'a pool has one definition: a second one is refused', wr)
+            d = diff_pools(exp_p, obs_pools(fresh))
+            if d:
+                _v(ctx, f'C12/pools-redefinition-refused-but-changed-{d[0]}', 'a refused second definition leaves the '
+                              f'reconstructed pools as they were ({d[0]} changed)',
+                              dict(wr, clause=d[0], expected=exp_p.get(d[1]), observed=obs_pools(fresh).get(d[1])))
+                continue
         # --- the reconstructed pools index and regenerate identically
         ctx.count('clause:regenerate-equal')
         try:
